@@ -194,6 +194,48 @@ def check_batch(o):
             po = vec(m.project_out(as_obj(y)))
             if not L.close(m._components @ po, np.zeros(k), 1e-8):
                 bad.append((tag + ": project_out residual is not orthogonal to the model", {}, None))
+        # every read-only query of the model (each component as a sample, spectra, ratios, text) leaves it exactly as it was, and
+        # component(i) is mean + scale * sqrt(eigenvalue_i) * direction_i
+        snap = [np.array(v, copy=True) for v in (m._eigenvalues, m._components, m._mean)]
+        try:
+            for i in range(k):
+                ci = vec(m.component(i))
+                want_ci = m._mean + 1.0 * np.sqrt(snap[0][i]) * snap[1][i]
+                if not L.close(ci, want_ci, 1e-8):
+                    bad.append((tag + ": component(%d) is not mean + std * direction" % i, {}, None))
+                    break
+                c2 = vec(m.component(i, with_mean=False, scale=2.0))
+                if not L.close(c2, snap[1][i], 1e-12):       # (documented: the scale only applies together with the mean)
+                    bad.append((tag + ": component(%d, with_mean=False) is not the direction itself" % i, {}, None))
+                    break
+            for q in ("components", "eigenvalues", "n_components", "n_active_components", "n_features", "n_samples"):
+                getattr(m, q)
+            for q in ("mean", "variance", "variance_ratio", "eigenvalues_ratio", "eigenvalues_cumulative_ratio", "noise_variance", "noise_variance_ratio", "original_variance"):
+                getattr(m, q)()
+            str(m)
+        except Exception as e:
+            from ..core import from_library
+
+            if not from_library(e):
+                raise
+            bad.append((tag + ": a read-only query of the model raised %s" % type(e).__name__, {"msg": str(e)[:120]}, None))
+        if any(not np.array_equal(a_, b_) for a_, b_ in zip(snap, (m._eigenvalues, m._components, m._mean))):
+            bad.append((tag + ": read-only queries (component(i), spectra, ratios) changed the model's basis / eigenvalues / mean", {}, None))
+            continue
+        # weights may be given for the leading components only: the missing ones are zero; several instances at once are the
+        # instances one at a time
+        for j in range(1, k + 1):
+            wf = np.zeros(k)
+            wf[:j] = rng.randint(1, 4, size=j)
+            if not L.close(vec(m.instance(wf[:j].copy())), vec(m.instance(wf.copy())), 1e-9):
+                bad.append((tag + ": instance() with %d of %d weights is not the instance with the missing weights set to zero" % (j, k), {}, None))
+                break
+        if tag.startswith("PCAVectorModel") and k >= 2:
+            Wm = rng.randint(-3, 4, size=(3, k - 1)).astype(float)
+            many = np.asarray(m.instance_vectors(Wm.copy()))
+            one = np.stack([np.asarray(m.instance(w.copy())).ravel() for w in Wm])
+            if many.shape != one.shape or not L.close(many, one, 1e-9):
+                bad.append((tag + ": instance_vectors(W) is not instance(w) row by row", {}, None))
         # active-component changes and trimming
         orig = m.original_variance()
         for j in range(1, k + 1):
@@ -247,7 +289,9 @@ def check_incr(o):
     # increments must still be absorbed by the whole model
     # (an ITERATOR of vectors with n_samples is documented for PCAVectorModel.increment but np.array(iterator) makes it fail
     #  with an IndexError on the pinned tree: an input-form defect outside what C11 states - observed, not judged)
-    kinds = ["PCAVectorModel", "PCAVectorModel (view narrowed)", "PCAVectorModel (list increments)"] + \
+    # "(refused calls between)": before every increment the model is offered data it must refuse (wrong number of features, a bare
+    # 1-D vector); a call that raises must leave the model exactly as it was
+    kinds = ["PCAVectorModel", "PCAVectorModel (view narrowed)", "PCAVectorModel (list increments)", "PCAVectorModel (refused calls between)"] + \
             (["PCAModel"] if X.shape[1] % 2 == 0 else [])
     for tag in kinds:
         narrowed = tag.endswith("(view narrowed)")
@@ -262,6 +306,23 @@ def check_incr(o):
                 zero_mean_before = centre and bool(np.all(m._mean == 0))
                 if narrowed and m.n_components > 1:
                     m.n_active_components = 1
+                if tag.endswith("(refused calls between)"):
+                    stop = False
+                    for what, junk in (("one feature too many", np.ones((2, X.shape[1] + 1))), ("a bare 1-D vector", X[a].copy())):
+                        snap = [np.array(v, copy=True) for v in (m._eigenvalues, m._components, m._mean, m._trimmed_eigenvalues)] + [m.n_samples, m.n_active_components]
+                        try:
+                            m.increment(junk)
+                        except Exception:
+                            now = [m._eigenvalues, m._components, m._mean, m._trimmed_eigenvalues, m.n_samples, m.n_active_components]
+                            if any((np.asarray(x).shape != np.asarray(y).shape) or not np.array_equal(np.asarray(x), np.asarray(y)) for x, y in zip(snap, now)):
+                                bad.append((tag + ": an increment that was refused (%s) changed the model" % what, {"composition": comp, "centre": centre}, None))
+                                stop = True
+                                break
+                        else:
+                            stop = True          # (accepted: nothing to say about it here, and the model is no longer comparable)
+                            break
+                    if stop:
+                        break
                 if tag.endswith("(list increments)"):
                     m.increment([row.copy() for row in X[a:a + comp[k]]])          # the samples as a plain list of vectors
                 elif tag.endswith("(iterator + n_samples)"):
